@@ -176,6 +176,11 @@ def r1(ctx):
                 return False
             g_ = e.generators[0]
             kv = U(g_.target)
+            if isinstance(g_.target, ast.Tuple) and len(g_.target.elts) == 2 and all(isinstance(t_, ast.Name) for t_ in g_.target.elts) \
+                    and U(g_.iter).replace(" ", "") == f"{grp}.items()":
+                # (key, dataset) pairs of the group: {k: d[:] for k, d in grp.items()}
+                kn, dn_ = g_.target.elts[0].id, g_.target.elts[1].id
+                return U(k) == kn and U(v).replace(" ", "") in (f"{dn_}[:]", f"{dn_}[()]")
             return U(g_.iter).replace(" ", "") in (f"{grp}.keys()", grp) and U(k) == kv and U(v).replace(" ", "") in (f"{grp}[{kv}][:]", f"{grp}[{kv}][()]")
         got = {}
         for n in walk_own(lf.node):
@@ -202,6 +207,14 @@ def r1(ctx):
                     got.setdefault(d, set()).add("attrs")
                 if datasets_src(n.args[0]):
                     got.setdefault(d, set()).add("datasets")
+            # for k, d_ in grp.items(): d[k] = d_[:]
+            if isinstance(n, ast.For) and U(n.iter).replace(" ", "") == f"{grp}.items()" and isinstance(n.target, ast.Tuple) and len(n.target.elts) == 2 \
+                    and all(isinstance(t_, ast.Name) for t_ in n.target.elts):
+                kn, dn_ = n.target.elts[0].id, n.target.elts[1].id
+                for x in n.body:
+                    if isinstance(x, ast.Assign) and len(x.targets) == 1 and isinstance(x.targets[0], ast.Subscript) and isinstance(x.targets[0].value, ast.Name) \
+                            and U(x.targets[0].slice) == kn and U(x.value).replace(" ", "") in (f"{dn_}[:]", f"{dn_}[()]"):
+                        got.setdefault(x.targets[0].value.id, set()).add("datasets")
             # for k in grp.keys(): d[k] = grp[k][:]
             if isinstance(n, ast.For) and U(n.iter).replace(" ", "") in (f"{grp}.keys()", grp) and isinstance(n.target, ast.Name):
                 kv = n.target.id
